@@ -163,6 +163,9 @@ func (m *Method) compile() error {
 	if err := m.compileOutput(); err != nil {
 		return err
 	}
+	if err := m.compileChannel(); err != nil {
+		return err
+	}
 	if err := m.compileType(); err != nil {
 		return err
 	}
@@ -228,6 +231,21 @@ func (m *Method) compileOutput() error {
 
 		m.Response = response
 		m._OutputFields = nil
+	}
+	return nil
+}
+
+func (m *Method) compileChannel() error {
+	ch := m.Channel
+	if ch == nil {
+		return nil
+	}
+
+	if in := ch.In; in != nil && in.Kind != KindMessage {
+		return fmt.Errorf("invalid channel in type, must be a message, got %q instead", in.Kind)
+	}
+	if out := ch.Out; out != nil && out.Kind != KindMessage {
+		return fmt.Errorf("invalid channel out type, must be a message, got %q instead", out.Kind)
 	}
 	return nil
 }
